@@ -34,15 +34,16 @@ type Write struct {
 
 // CallRec is the record of one sanitize() execution.
 type CallRec struct {
-	ID       int
-	Toks     []*TokEvent
-	Final    LoopState
-	Ended    bool
-	Panic    string
-	cur      *html.Token
-	curEv    *TokEvent
+	ID        int
+	Pid       int // which policy of the session (1 unless the session builds several)
+	Toks      []*TokEvent
+	Final     LoopState
+	Ended     bool
+	Panic     string
+	cur       *html.Token
+	curEv     *TokEvent
 	WriteHook func(s string) error // optional fault injection: return non-nil to fail the write
-	Gate      func(c *CallRec)      // optional scheduler gate, called at every token
+	Gate      func(c *CallRec)     // optional scheduler gate, called at every token
 }
 
 var (
@@ -206,7 +207,7 @@ func InstallHooks() {
 // RunRecorded runs p.Sanitize-equivalent (SanitizeReader on the bytes) with recording on.
 func RunRecorded(p *bm.Policy, input []byte) (rec *CallRec, out []byte) {
 	InstallHooks()
-	rec = &CallRec{}
+	rec = &CallRec{Pid: 1}
 	SetCurrent(rec)
 	defer SetCurrent(nil)
 	defer func() {
@@ -237,7 +238,7 @@ func encState(s LoopState) (bool, int64, []string, string) {
 
 // TraceEvents renders the call as trace lines (call, tok*, ret).
 func (c *CallRec) TraceEvents(id int, entry string, errored bool) []Ev {
-	evs := []Ev{{"ev": "call", "c": id, "entry": entry}}
+	evs := []Ev{{"ev": "call", "c": id, "pid": c.Pid, "entry": entry}}
 	for _, t := range c.Toks {
 		sk, cnt, stack, mrst := encState(t.Pre)
 		ws := []Tok{}
